@@ -112,6 +112,8 @@ pub struct PLifeObs {
     pub escaped: bool,
     /// the model's prediction computed by the interpreter from what it actually executed
     pub predicted_panics: u64,
+    #[serde(default)]
+    pub fault_not_reached: bool,
     pub predicted_escape: bool,
     pub source_fired: bool,
     pub fakes_installed_at_panic: u64,
@@ -240,6 +242,11 @@ pub fn execute(c: &PanicCase) -> PanicObs {
                                 }
                             } else {
                                 fire(&mut inj, src, &mut st, &mut extra_unsat);
+                                // (only reached when the source did not panic: an injected fault
+                                // that the library never met; it must not hit a later step instead)
+                                ip::MODE.store(ip::MODE_PASS, SeqCst);
+                                ip::MPROTECT_FAIL_AT.store(0, SeqCst);
+                                ip::MPROTECT_FAIL_PAGE.store(0, SeqCst);
                             }
                         }
                     }
@@ -330,8 +337,16 @@ pub fn execute(c: &PanicCase) -> PanicObs {
         let over_pending = matches!(l.panic_at, Some((_, Source::OverCalled, true)));
         lo.pending_satisfied = sat;
         lo.pending_unsatisfied = unsat + if over_pending { 1 } else { 0 };
-        let uncaught_source = matches!(l.panic_at, Some((_, _, false)));
-        if uncaught_source {
+        // an injected platform fault only matters if the library made the call that was to fail
+        // (an implementation that needs no trampoline for this pair never asks for memory)
+        let env_fault = matches!(l.panic_at, Some((_, Source::AllocationFailure | Source::MprotectFailure | Source::MprotectFailurePersistent, _)));
+        lo.fault_not_reached = env_fault && source_fired && ip::MMAP_FAILS.load(SeqCst) == 0 && ip::MPROTECT_FAILS.load(SeqCst) == 0;
+        let uncaught_source = matches!(l.panic_at, Some((_, _, false))) && !lo.fault_not_reached;
+        if lo.fault_not_reached {
+            let exit_fires = lo.pending_unsatisfied > 0;
+            lo.predicted_panics = if exit_fires { 1 } else { 0 };
+            lo.predicted_escape = exit_fires;
+        } else if uncaught_source {
             lo.predicted_panics = 1;
             lo.predicted_escape = true;
         } else {
